@@ -115,14 +115,14 @@ package identity
 //@   requires i != nil && (forall k int :: { i.versions[k] } 0 <= k && k < len(i.versions) ==> i.versions[k] != nil)
 //@   let n = len(i.versions)
 //@   ensures [has-version]    result == nil ==> n > 0
-//@   ensures [clocks-kept-and-monotone] result == nil ==> (forall k int, name string :: { i.versions[k], (name in i.versions[k].times) } 0 <= k && k + 1 < n && (name in i.versions[k].times) ==> (name in i.versions[k + 1].times) && i.versions[k + 1].times[name] >= i.versions[k].times[name])
+//@   ensures [clocks-kept-and-monotone] result == nil ==> (forall k int :: { i.versions[k] } 0 <= k && k + 1 < n ==> (forall name string :: { (name in i.versions[k].times) } (name in i.versions[k].times) ==> (name in i.versions[k + 1].times) && i.versions[k + 1].times[name] >= i.versions[k].times[name]))
 //@   loop 1
 //@     invariant rangeindex < n && lastTimes != nil && fresh(lastTimes)
 //@     invariant forall k int :: { i.versions[k] } 0 <= k && k < n ==> i.versions[k] != nil && i.versions[k] == old(i.versions[k]) && i.versions[k].times == old(i.versions[k].times) && !fresh(i.versions[k].times)
-//@     invariant forall k int, name string :: { i.versions[k], (name in i.versions[k].times) } 0 <= k && k < n ==> (name in i.versions[k].times) == old(name in i.versions[k].times) && i.versions[k].times[name] == old(i.versions[k].times[name])
+//@     invariant forall k int :: { i.versions[k] } 0 <= k && k < n ==> (forall name string :: { (name in i.versions[k].times) } (name in i.versions[k].times) == old(name in i.versions[k].times) && i.versions[k].times[name] == old(i.versions[k].times[name]))
 //@     invariant rangeindex < 0 ==> (forall name string :: { (name in lastTimes) } !(name in lastTimes))
 //@     invariant rangeindex >= 0 ==> (forall name string :: { (name in lastTimes) } ((name in lastTimes) == (name in i.versions[rangeindex].times)) && ((name in lastTimes) ==> lastTimes[name] == i.versions[rangeindex].times[name]))
-//@     invariant forall k int, name string :: { i.versions[k], (name in i.versions[k].times) } 0 <= k && k < rangeindex && (name in i.versions[k].times) ==> (name in i.versions[k + 1].times) && i.versions[k + 1].times[name] >= i.versions[k].times[name]
+//@     invariant forall k int :: { i.versions[k] } 0 <= k && k < rangeindex ==> (forall name string :: { (name in i.versions[k].times) } (name in i.versions[k].times) ==> (name in i.versions[k + 1].times) && i.versions[k + 1].times[name] >= i.versions[k].times[name])
 //@   loop 2
 //@     invariant forall name string :: { iterseen[name] } iterseen[name] ==> (name in v.times) && v.times[name] >= lastTimes[name]
 //@   loop 3
